@@ -27,13 +27,20 @@ import (
 	"strconv"
 	"strings"
 
+	"github.com/yandex/pandora/core/config"
 	"github.com/yandex/pandora/core/plugin"
+	"github.com/yandex/pandora/core/plugin/pluginconfig"
+	"github.com/yandex/pandora/core/register"
 
 	"verifharness/internal/vh"
 )
 
 type Iface interface{ Do() }
-type Cfg struct{ A, B, C int }
+type Cfg struct {
+	A int `config:"a"`
+	B int `config:"b"`
+	C int `config:"c"`
+}
 type Impl struct {
 	ctor, prod int
 	arg        string
@@ -280,8 +287,80 @@ func guarded(f func() string) (out string) {
 	return f()
 }
 
+var (
+	hooksAdded bool
+	hookSeq    int
+)
+
+// hook <cfg S|P> <def -|V> <req N|F1> <userB> <k>: the way real configs reach the registry:
+// core/register (default registry) + pluginconfig hooks + config.Decode of {type: name, b: userB}
+// into a field of plugin type / of factory type; the fill is the real decoder.
+func runHook(f []string) string {
+	if len(f) != 6 {
+		return "unknown-case"
+	}
+	cfg, def, req := f[1], f[2], f[3]
+	userB, _ := strconv.Atoi(f[4])
+	k, _ := strconv.Atoi(f[5])
+	if !hooksAdded {
+		pluginconfig.AddHooks()
+		hooksAdded = true
+	}
+	hookSeq++
+	name := fmt.Sprintf("hc18-%d", hookSeq)
+	r := &rec{cerr: true, ffail: map[int]bool{}, cfail: map[int]bool{}, pfail: map[int]bool{}}
+	args := []interface{}{}
+	if def != "-" {
+		args = append(args, r.defaultFn(cfg, def))
+	}
+	register.RegisterPtr((*Iface)(nil), name, r.constructor("P", cfg, implT), args...)
+	// a fresh map per Decode: pluginconfig.parseConf deletes the "type" key from the map it is given
+	mkdata := func() map[string]interface{} {
+		return map[string]interface{}{"x": map[string]interface{}{"type": name, "b": userB}}
+	}
+	var sb strings.Builder
+	if req == "N" {
+		sb.WriteString("new")
+		for i := 0; i < k; i++ {
+			out := guarded(func() string {
+				var h struct {
+					X Iface `config:"x"`
+				}
+				err := config.Decode(mkdata(), &h)
+				if err != nil {
+					return "err:decode:" + strings.ReplaceAll(err.Error(), "\n", " ")
+				}
+				return describe(h.X, nil)
+			})
+			sb.WriteString(" | " + r.take() + " => " + out)
+		}
+		return sb.String()
+	}
+	var h struct {
+		X func() (Iface, error) `config:"x"`
+	}
+	cout := guarded(func() string {
+		if err := config.Decode(mkdata(), &h); err != nil {
+			return "err:decode:" + strings.ReplaceAll(err.Error(), "\n", " ")
+		}
+		return "ok"
+	})
+	sb.WriteString("fac " + r.take() + " => " + cout)
+	if cout != "ok" {
+		return sb.String()
+	}
+	for i := 0; i < k; i++ {
+		out := guarded(func() string { return describe(h.X()) })
+		sb.WriteString(" | " + r.take() + " => " + out)
+	}
+	return sb.String()
+}
+
 func runCase(c string) string {
 	f := strings.Split(c, " ")
+	if f[0] == "hook" {
+		return runHook(f)
+	}
 	if len(f) != 13 || f[0] != "c18" {
 		return "unknown-case"
 	}
@@ -445,6 +524,15 @@ func gen(r *vh.Rand, tier string) []string {
 							}
 						}
 					}
+				}
+			}
+		}
+	}
+	for _, cfg := range []string{"S", "P"} {
+		for _, def := range []string{"-", "V"} {
+			for _, req := range []string{"N", "F1"} {
+				for _, k := range []int{1, 2, 4} {
+					out = append(out, fmt.Sprintf("hook %s %s %s %d %d", cfg, def, req, 7+k, k))
 				}
 			}
 		}
